@@ -182,6 +182,9 @@ pub fn run_one(c: &Cfg15, cx: &mut Choices, obs: &mut Obs15) -> Result<(), Strin
                                     "window: poll_next returned Pending with {in_flight} tasks in flight, window {wv}, {can_still} results outstanding, source not pending"
                                 ));
                             }
+                            if in_flight > wv {
+                                *v2.lock().unwrap() = Some(format!("window: {in_flight} tasks are in flight, more than the window of {wv}"));
+                            }
                             // every in-flight task must have been polled by now
                             for i in yielded..created {
                                 if !s.polled[i] {
